@@ -368,7 +368,13 @@ func (ch *channel) Response(ctx async.Context) (spec.Value, status.Status) {
 	for {
 		msg, st := s.receive(ctx)
 		if !st.OK() {
-			s.receiveFail(st)
+			switch st.Code {
+			case status.CodeCancelled, status.CodeTimeout:
+				// The caller's context has ended, the call has not failed,
+				// the response can still be received with another context.
+			default:
+				s.receiveFail(st)
+			}
 			return nil, st
 		}
 
